@@ -176,6 +176,11 @@ func (w *world) genAttr(depth int) slog.Attr {
 	key := w.token("k")
 	if ch("attr.reusekey", 4) == 0 {
 		key = []string{"ka", "kb", "id"}[ch("attr.keyname", 3)]
+	} else if ch("attr.oddkey", 10) == 0 {
+		// keys that need quoting or escaping, collide with the built-in keys or
+		// contain the separator of group prefixes
+		simrt.Probe("odd_key")
+		key = []string{"a b", "q\"uote", "eq=ual", "dot.ted", "ключ", "new\nline", "time", "level", "msg", "tab\there", "{brace}"}[ch("attr.oddkey.name", 11)]
 	}
 	if ch("attr.longkey", 8) == 0 {
 		// key paths longer than the handlers' scratch buffers (32 bytes)
@@ -615,6 +620,10 @@ func (w *world) derive(by string) {
 			// after attributes and directly inside other groups
 			simrt.Probe("group_name_reused")
 			s.group = []string{"ga", "gb", "req"}[ch("derive.groupname", 3)]
+		}
+		if ch("derive.oddgroup", 12) == 0 {
+			simrt.Probe("odd_key")
+			s.group = []string{"a b", "q\"uote", "dot.ted", "группа", "new\nline", "msg"}[ch("derive.oddgroup.name", 6)]
 		}
 		if ch("derive.longgroup", 6) == 0 {
 			simrt.Probe("long_key_path")
